@@ -37,7 +37,7 @@ def check(v, tier, seed):
     cmd = "(%s replay %s %d && %s enum4 %d %d && %s random %d %d 30 && %s random %d %d 400) > %s" % (
         exe, rowf, 8 if quick else 1, exe, seed, 4000 if quick else 60000, exe, seed, 500 if quick else 20000,
         exe, seed + 1, 40 if quick else 400, obs)
-    rc, out = vlib.run("ulimit -t 900; " + cmd, timeout=3000)
+    rc, out = vlib.run("ulimit -t 150; " + cmd, timeout=3000)
     if rc != 0:
         v.violation({"what": "CornerTable::Create crashed or exceeded its time budget", "rc": rc, "output": out[-1500:]}, tags={"kind": "crash"})
         return v.finish("model_checking")
